@@ -19,6 +19,7 @@ import (
 	"strconv"
 	"strings"
 	"sync"
+	"sync/atomic"
 	"time"
 
 	"github.com/megaease/easegress/pkg/context"
@@ -159,6 +160,7 @@ type c07Backend struct {
 	seen []c07Seen
 	raw  []byte // scripted response (complete raw bytes); the connection is closed afterwards
 	wg   sync.WaitGroup
+	live int32 // connections being served
 }
 
 func c07StartBackend(raw []byte) *c07Backend {
@@ -176,14 +178,24 @@ func c07StartBackend(raw []byte) *c07Backend {
 				return
 			}
 			b.wg.Add(1)
+			atomic.AddInt32(&b.live, 1)
 			go b.serve(c)
 		}
 	}()
 	return b
 }
 
+// Quiesce waits until no connection is being served any more (every request that
+// reached the backend has been recorded).
+func (b *c07Backend) Quiesce() {
+	for i := 0; i < 10000 && atomic.LoadInt32(&b.live) != 0; i++ {
+		time.Sleep(time.Millisecond)
+	}
+}
+
 func (b *c07Backend) serve(c net.Conn) {
 	defer b.wg.Done()
+	defer atomic.AddInt32(&b.live, -1)
 	defer c.Close()
 	c.SetDeadline(time.Now().Add(c07IOTimeout))
 	br := bufio.NewReader(c)
@@ -198,7 +210,10 @@ func (b *c07Backend) serve(c net.Conn) {
 	if !complete {
 		return
 	}
-	c.Write(b.raw)
+	b.mu.Lock()
+	raw := b.raw
+	b.mu.Unlock()
+	c.Write(raw)
 	if tc, ok := c.(*net.TCPConn); ok {
 		tc.CloseWrite()
 		// let the peer finish reading before the socket is torn down
@@ -208,6 +223,20 @@ func (b *c07Backend) serve(c net.Conn) {
 }
 
 func (b *c07Backend) Addr() string { return b.ln.Addr().String() }
+
+// SetRaw replaces the scripted response (histories: one script per step).
+func (b *c07Backend) SetRaw(raw []byte) {
+	b.mu.Lock()
+	b.raw = raw
+	b.mu.Unlock()
+}
+
+// Seen returns the requests recorded so far.
+func (b *c07Backend) Seen() []c07Seen {
+	b.mu.Lock()
+	defer b.mu.Unlock()
+	return append([]c07Seen(nil), b.seen...)
+}
 
 func (b *c07Backend) Close() []c07Seen {
 	b.ln.Close()
